@@ -279,6 +279,20 @@ Section Resolve.
     | _, _, _ => false
     end.
 
+  (** the documented-sanitising table: exactly the engines in [documented] rewrite generated column names
+      (BigQuery cannot carry parentheses in a column name); every other engine keeps the names the DuckDB
+      session produces *)
+  Definition sanitising_ok (documented : list engine) : bool :=
+    forallb (fun E => Bool.eqb (sanitize_on E) (existsb (engine_eqb E) documented)) all_engines.
+  Lemma sanitising_spec documented :
+    sanitising_ok documented = true ->
+    forall E, existsb (engine_eqb E) documented = false -> forall n, nm E n = n.
+  Proof.
+    intros H E HE n. unfold sanitising_ok in H. rewrite forallb_forall in H.
+    specialize (H E (all_engines_complete E)). apply Bool.eqb_prop in H.
+    unfold nm. rewrite H, HE. reflexivity.
+  Qed.
+
   Lemma flags_one_hot_spec : flags_one_hot = true -> forall E X, flag E X = true <-> X = E.
   Proof.
     intros H E X. unfold flags_one_hot in H. rewrite forallb_forall in H.
@@ -592,6 +606,29 @@ Proof.
     rewrite (df_sql_a_map F s x). rewrite E2. reflexivity.
   - change (@None string) with (option_map (conc s x) None) at 1.
     rewrite aeval_sound, E3. reflexivity.
+Qed.
+
+(** time formats: a Spark pattern given by the user is READ in the input dialect (format_time, default_time_format,
+    and the inner read of format_execution_time) and WRITTEN for the execution dialect (format_execution_time's
+    generator and its default) -- on every session *)
+Definition time_reads := ["default_time_format:TIME_FORMAT"; "format_time:format_time"; "format_execution_time:format_time"].
+Definition time_writes := ["format_execution_time:TIME_FORMAT"; "format_execution_time:generator"].
+Definition time_ok (tf : list (string * dexp)) : bool :=
+  forallb (fun k => match sassoc k tf with Some d => match aeval None d with Some VIn => true | _ => false end | None => false end) time_reads
+  && forallb (fun k => match sassoc k tf with Some d => match aeval None d with Some VExec => true | _ => false end | None => false end) time_writes.
+Theorem time_formats_in_right_dialect tf :
+  time_ok tf = true -> forall s,
+    (forall k, In k time_reads -> exists d, sassoc k tf = Some d /\ deval s None d = Some (s_in s)) /\
+    (forall k, In k time_writes -> exists d, sassoc k tf = Some d /\ deval s None d = Some (s_exec s)).
+Proof.
+  unfold time_ok. intros H s. apply andb_true_iff in H. destruct H as [H1 H2].
+  rewrite forallb_forall in H1, H2. split; intros k Hk.
+  - specialize (H1 k Hk). destruct (sassoc k tf) as [d|]; [|discriminate]. exists d. split; [reflexivity|].
+    change (@None string) with (option_map (conc s "") None). rewrite aeval_sound.
+    destruct (aeval None d) as [[]|]; try discriminate. reflexivity.
+  - specialize (H2 k Hk). destruct (sassoc k tf) as [d|]; [|discriminate]. exists d. split; [reflexivity|].
+    change (@None string) with (option_map (conc s "") None). rewrite aeval_sound.
+    destruct (aeval None d) as [[]|]; try discriminate. reflexivity.
 Qed.
 
 (** result column names: parsed in the execution dialect, re-normalised execution -> output *)
